@@ -10,11 +10,16 @@ package statefulset
 import (
 	kubeapps "k8s.io/api/apps/v1"
 	v1 "k8s.io/api/core/v1"
+	"k8s.io/client-go/kubernetes"
 	appsv1 "k8s.io/client-go/kubernetes/typed/apps/v1"
+	corelisters "k8s.io/client-go/listers/core/v1"
 	"k8s.io/client-go/tools/record"
 	"k8s.io/client-go/util/workqueue"
 
 	apps "github.com/pingcap/advanced-statefulset/client/apis/apps/v1"
+	clientset "github.com/pingcap/advanced-statefulset/client/client/clientset/versioned"
+	appslisters "github.com/pingcap/advanced-statefulset/client/client/listers/apps/v1"
+	"github.com/pingcap/advanced-statefulset/pkg/third_party/k8s"
 )
 
 // VerifControl exposes the private methods of defaultStatefulSetControl.
@@ -58,6 +63,37 @@ func (c *VerifControl) TruncateHistory(
 	current *kubeapps.ControllerRevision,
 	update *kubeapps.ControllerRevision) error {
 	return c.ssc.truncateHistory(set, pods, revisions, current, update)
+}
+
+// VerifNewController wires a StatefulSetController exactly as NewStatefulSetController does, but from listers and a
+// recorder supplied by the caller (no informers, no event broadcaster), so that a harness can build one per case.
+func VerifNewController(
+	kubeClient kubernetes.Interface,
+	pcClient clientset.Interface,
+	setLister appslisters.StatefulSetLister,
+	podLister corelisters.PodLister,
+	pvcLister corelisters.PersistentVolumeClaimLister,
+	recorder record.EventRecorder,
+) *StatefulSetController {
+	synced := func() bool { return true }
+	return &StatefulSetController{
+		kubeClient: kubeClient,
+		pcClient:   pcClient,
+		control: NewDefaultStatefulSetControl(
+			NewRealStatefulPodControl(kubeClient, setLister, podLister, pvcLister, recorder),
+			NewRealStatefulSetStatusUpdater(pcClient, setLister),
+			kubeClient.AppsV1(),
+			recorder,
+		),
+		pvcListerSynced: synced,
+		queue:           workqueue.NewNamedRateLimitingQueue(workqueue.DefaultControllerRateLimiter(), "statefulset"),
+		podControl:      k8s.RealPodControl{KubeClient: kubeClient, Recorder: recorder},
+		revListerSynced: synced,
+		podLister:       podLister,
+		podListerSynced: synced,
+		setLister:       setLister,
+		setListerSynced: synced,
+	}
 }
 
 // Controller-level entry points.
